@@ -3430,10 +3430,15 @@ static void scan_globals(void) {
 
     // Of several tentative definitions, the one declared first (the
     // last one in the list) is kept.
-    if (!var2)
+    if (!var2) {
       for (var2 = var->next; var2; var2 = var2->next)
         if (var2->is_tentative && !strcmp(var->name, var2->name))
           break;
+
+      // The kept definition has the composite type: 'int a[]; int a[5];'
+      if (var2 && var2->ty->size < 0 && var->ty->size >= 0)
+        var2->ty = var->ty;
+    }
 
     // If there's another definition, the tentative definition
     // is redundant
